@@ -887,6 +887,11 @@ class C20(Check):
         c['raw'] = raw.hex()
         if kind == 'reqerr':
             c['cls'] = rng.choice(['RequestError', 'BodyParsingError', 'BodySizeError', 'Custom'])
+        # the template cannot be read when this request needs it (cold cache): for the model that is the default error
+        # handler failing with that exception, i.e. the last-resort page.  Only where the HTML page is what gets rendered.
+        if (kind in ('nf', 'na', 'crash', 'hook', 'badpath', 'reqerr', 'json', 'big', 'gen', 'badtype') and not c['failing']
+                and c['accept'] in (None, '', 'text/html', '*/*', 'text/plain') and rng.random() < .12):
+            c['tfault'] = rng.choice(TEMPLATE_FAULTS)
         return c
 
     # which request-derived texts a response shows (its "holes"), per kind of response
@@ -1029,7 +1034,26 @@ class C20(Check):
         e2['PATH_INFO'] = path
         fp, fp_exc = fullpath_of(e2, app.config)
         fp = lib_param(e2, fp)
-        status, ctype, body = wsgi_call(app, env)
+        texc = None
+        # (eligibility re-tested here: the sized cases rewrite kind / Accept after the case was drawn)
+        if (c.get('tfault') and not c['failing'] and c['accept'] in (None, '', 'text/html', '*/*', 'text/plain')
+                and kind in ('nf', 'na', 'crash', 'hook', 'badpath', 'reqerr', 'json', 'big', 'gen', 'badtype')):
+            er = apps.error_render
+            er._html_lns[:] = []
+            old_html, er.html = er.html, template_fault(c['tfault'])
+            try:
+                er.html.open('r')
+            except Exception as e:      # noqa: the exception the renderer will meet
+                texc = e
+            try:
+                status, ctype, body = wsgi_call(app, env)
+            finally:
+                er.html = old_html
+                er._html_lns[:] = []
+            if count:
+                self.bump('serve:template-unreadable:' + c['tfault'])
+        else:
+            status, ctype, body = wsgi_call(app, env)
         # what routing / the handler did (observed; a parameter of the model)
         hit = cur.hit
         if not decodable:
@@ -1058,6 +1082,8 @@ class C20(Check):
             oc = 'nf'
         hfail = c['failing'] and not (hit == 'abort' and c['code'] not in REG_CODES)
         d1 = repr(RuntimeError(c['msg2'])) if hfail else (repr(fp_exc) if fp_exc is not None else '')
+        if texc is not None and not hfail and fp_exc is None:
+            hfail, d1 = True, repr(texc)
         # `wsgi` drops the body for REQUEST_METHOD == 'HEAD' exactly (routing upper-cases, this test does not)
         line = (f'errorpage serve {int(c["debug"])} {int(method == "HEAD")} {hb(raw)} {o(c["accept"])} '
                 f'{urlenv_args(c["env"], fp)} {oc} {int(hfail)} {hs(d1)} {hs(c["tb"])}')
